@@ -131,7 +131,11 @@ DeleteRows == {[fn |-> t[1], kind |-> t[2], foreign |-> t[3], loc |-> t[4], form
                  t \in {u \in Deleters \X Kinds \X Foreign \X Locs \X Forms3 : DelCase(u)}}
 
 Creators == {"asarray", "create_array", "asraggedarray", "create_raggedarray", "copy_array", "copy_ragged", "archive"}
-Occupants == {"array_meta", "ragged", "file", "dir_foreign", "array_larger", "array_smaller"}
+(* "dir_links": a user's directory holding symbolic links that carry Darr's file names (arrayvalues.bin,   *)
+(* arraydescription.json, README.txt, metadata.json -> files elsewhere; values, indices -> directories        *)
+(* elsewhere); "array_links": an array whose README.txt and metadata.json were replaced by such links.       *)
+(* What the links point to is foreign: no creating function may write through them.                         *)
+Occupants == {"array_meta", "ragged", "file", "dir_foreign", "array_larger", "array_smaller", "dir_links", "array_links"}
 (* overwrite=False on an existing path: raises and modifies nothing;             *)
 (* overwrite=True: may succeed or raise, but foreign entries are never touched   *)
 CreateVerdict(fn, occ, overwrite) ==
